@@ -13,7 +13,7 @@ COMMON_NOTE = ("Trusted base: Lean 4.33 kernel; axioms ⊆ {propext, Classical.c
 
 CLAIMS = {
     'C13': dict(
-        text="Theorems (Props/C13.lean, 27, none partial) for line-by-line models of _downsample_treeneuron and resample_skeleton. Downsampling, "
+        text="Theorems (Props/C13.lean, 28, none partial) for line-by-line models of _downsample_treeneuron and resample_skeleton. Downsampling, "
              "for every well-formed correctly labelled forest, every factor incl. inf and every preserved / soma set: kept rows are original "
              "rows; all fix points are kept; every kept node hangs below its nearest kept proper ancestor with at most `factor` dropped nodes "
              "in between; every kept node keeps its exact number of children (roots / tips / forks unchanged); the result is a well-formed "
@@ -25,7 +25,7 @@ CLAIMS = {
              "judged by dsCheck; resample output is compared per segment (counts; positions against exact rational arc-length "
              "interpolation, 1e-9) and judged by anchor / fresh-id / on-cable / cable-length / nearest-node oracles.",
         note="Geometry theorems are over Rat and assume arc-length steps ≥ true edge lengths (exact on integer-length inputs); nearest-ancestor, gap and "
-             "branching theorems assume correct labels (navis uses its current `type` column); non-linear method= kinds, cKDTree and np.interp "
+             "branching theorems assume correct labels (navis uses its current `type` column) — discharged along every history of catalogue operations by downsample_spec_after_history (C01's label invariant); non-linear method= kinds, cKDTree and np.interp "
              "are trusted / oracle-only; the round-vs-other-rounding node count is a correspondence clause.",
         technique="Lean 4 proof (nearest-kept-ancestor + gap + branching preservation; on-cable + chord ≤ arc) + exact correspondence",
         ref="§5 C13"),
